@@ -6,10 +6,11 @@ P=$(readlink -f "$1"); shift
 WT=$(mktemp -d /var/tmp/kv_mut.XXXXXX)
 rmdir "$WT"
 git -C /repo worktree add -q --detach "$WT" HEAD
-trap 'git -C /repo worktree remove --force "$WT" >/dev/null 2>&1; rm -rf "$WT"' EXIT
+trap 'git -C /repo worktree remove --force "$WT" >/dev/null 2>&1; rm -rf "$WT" "$KV_WORK" "$KV_EVID"' EXIT
 git -C "$WT" apply "$P"
 cd "$(dirname "$0")/.."
 export KV_EVID=$(mktemp -d /var/tmp/kv_evid.XXXXXX)
+export KV_WORK=$(mktemp -d /var/tmp/kv_work.XXXXXX); cp -a coq ocaml "$KV_WORK"/
 for id in "$@"; do
   echo "== $id"
   KV_REPO="$WT" tools/check "$id" quick || true
